@@ -19,6 +19,7 @@ from pyvc import settheory as st
 from pyvc.settheory import modset, SETEQ, SMIN, SMAX, WFSET
 from . import c01
 from .c01 import D, DVAL, BLS, OPERATOR
+from .common import BLS_IFACE_RAISES
 from .common import SERIALIZABLE, ATTRIBUTE, CONSTANT, FIELD, PADDING, ANY, BOOLEAN_X, RATIONAL_X, STRING_X, SET_X, COMPOSITE
 
 P = ["C18"]
@@ -104,47 +105,46 @@ def STR(t):
 
 
 def SERIALIZABLE_P(t):
-    """whether `bit_length_set` is defined (it raises TypeError for service types): a property of the class"""
+    """whether `bit_length_set` is defined: exactly when the type is not a ServiceType (C02 interface contract)"""
     if smt():
-        return _uf("ghost!serializable", z3.IntSort(), z3.BoolSort())(TAG(t))
-    try:
-        t.bit_length_set
-        return True
-    except TypeError:
-        return False
+        return NOT(ISINST(t, "ServiceType"))
+    return type(t).__name__ != "ServiceType"
 
 
-def BLS_OF(t):
+def LT(t):
+    """the set that `t.bit_length_set` denotes: the ghost L(t) of specs/c02.py (the same uninterpreted function of the type
+    object, `L!type`; C02 defines it per class by the Specification)"""
     if smt():
-        return Obj(speclib.CTX.engine.repo.cls(BLS), True, _uf("ghost!bls", RefSort, RefSort)(t.ref), None, speclib.CTX)
-    return t.bit_length_set
+        return SymSet(st.L_uf(t.ref))
+    return D(t.bit_length_set)
 
 
 @contract(SERIALIZABLE + ".bit_length_set", props=P)
 class _IfBls:
-    """Interface contract of the abstract property as far as C18 needs it: a well-formed bit length set that is a function
-    of the (immutable) type object, or TypeError exactly for the non-serializable classes (what it denotes is C02)."""
+    """Projection of THE interface contract of SerializableType.bit_length_set (specs/c02.py _BlsIface, backed by the proofs
+    of every override): the same exceptional clause (specs/common.py BLS_IFACE_RAISES) and the same `denotes-L` clause over
+    the same ghost; `wf` is the part of C02's class invariant WFT(self) that C18 needs."""
     returns = ObjOf(BLS)
     verify = False
-    assumed = "interface contract of SerializableType.bit_length_set (established per class under C02)"
-    value = staticmethod(lambda s: BLS_OF(s.self))
-    raises = {"TypeError": lambda s: NOT(SERIALIZABLE_P(s.self))}
+    assumed = ("projection of the C02 interface contract of SerializableType.bit_length_set (same clauses: TypeError iff "
+               "ServiceType; denotes L(self)); `wf` restates the WFSET(L(self)) part of the C02 class invariant WFT")
+    raises = {"TypeError": BLS_IFACE_RAISES}
 
     def post(s):
-        return {"wf": WFSET(D(s.result))}
+        return {"denotes-L": SETEQ(D(s.result), LT(s.self)), "wf": WFSET(LT(s.self))}
 
 
 def types_eq(a, b):
     """SerializableType.__eq__ as a formula: same class, same normalized string form, and - where both have one - bit length
     sets that compare equal.  Symmetric in (a, b)."""
     return AND(TAG(a) == TAG(b) if smt() else type(a) is type(b), EQ(STR(a), STR(b)),
-               IMPLIES(AND(SERIALIZABLE_P(a), SERIALIZABLE_P(b)), lambda: bls_approx_eq(D(BLS_OF(a)), D(BLS_OF(b)))))
+               IMPLIES(AND(SERIALIZABLE_P(a), SERIALIZABLE_P(b)), lambda: bls_approx_eq(LT(a), LT(b))))
 
 
 def type_hash_key(t):
     """what SerializableType.__hash__ hashes: the string form and (min, max) of the bit length set, {0} if there is none"""
-    d_min = ITE(SERIALIZABLE_P(t), SMIN(D(BLS_OF(t))), 0) if smt() else (t.bit_length_set.min if SERIALIZABLE_P(t) else 0)
-    d_max = ITE(SERIALIZABLE_P(t), SMAX(D(BLS_OF(t))), 0) if smt() else (t.bit_length_set.max if SERIALIZABLE_P(t) else 0)
+    d_min = ITE(SERIALIZABLE_P(t), SMIN(LT(t)), 0) if smt() else (t.bit_length_set.min if SERIALIZABLE_P(t) else 0)
+    d_max = ITE(SERIALIZABLE_P(t), SMAX(LT(t)), 0) if smt() else (t.bit_length_set.max if SERIALIZABLE_P(t) else 0)
     if smt():
         c = speclib.CTX
         return c.engine.lib.hash_of(c, (STR(t), _RawHash(bls_hash_key_terms(d_min, d_max))))
@@ -169,6 +169,7 @@ class _RawHash:
 class _TypeEq:
     params = dict(other=ObjOf(SERIALIZABLE))
     returns = Bool
+    self_classes = ["SerializableType", "ServiceType"]  # a serializable receiver and the non-serializable one
 
     def post(s):
         a, b = s.self, s.other
@@ -185,6 +186,7 @@ class _TypeEq:
 @contract(SERIALIZABLE + ".__hash__", props=P)
 class _TypeHash:
     returns = Int
+    self_classes = ["SerializableType", "ServiceType"]
 
     def post(s):
         return {"function-of-string-and-bls-min-max": s.result == type_hash_key(s.self)}
